@@ -136,10 +136,19 @@ class ASGIApp:
 
 async def translate_request(scope, receive, send):
     class AwaitablePayload:  # pragma: no cover
-        def __init__(self, payload):
+        def __init__(self, payload, more_body=False):
             self.payload = payload or b''
+            self.more_body = more_body
 
         async def read(self, length=None):
+            # the rest of the body is only received when it is asked for, so
+            # that a request that is rejected for its size is not buffered
+            while self.more_body and (
+                    length is None or len(self.payload) < length):
+                event = await receive()
+                if event['type'] == 'http.request':
+                    self.payload += event.get('body') or b''
+                self.more_body = event.get('more_body', False)
             if length is None:
                 r = self.payload
                 self.payload = b''
@@ -150,12 +159,10 @@ async def translate_request(scope, receive, send):
 
     event = await receive()
     payload = b''
+    more_body = False
     if event['type'] == 'http.request':
         payload += event.get('body') or b''
-        while event.get('more_body'):
-            event = await receive()
-            if event['type'] == 'http.request':
-                payload += event.get('body') or b''
+        more_body = event.get('more_body', False)
     elif event['type'] == 'websocket.connect':
         pass
     else:
@@ -171,7 +178,7 @@ async def translate_request(scope, receive, send):
         else:
             raw_uri += '?' + query_string
     environ = {
-        'wsgi.input': AwaitablePayload(payload),
+        'wsgi.input': AwaitablePayload(payload, more_body),
         'wsgi.errors': sys.stderr,
         'wsgi.version': (1, 0),
         'wsgi.async': True,
